@@ -6,14 +6,19 @@ Driver for C21.  Stateless: every line carries a whole program.
 ops
   `compile <expr>`  answer `[instr …]` | `err` | `panic`
         model: `VM.compile` rendered like `api.VerifCompileDump`; a difference is `diff` (the compiler
-        model no longer follows the code).
+        model no longer follows the code).  When they agree, the translation validation `VM.layoutOK`
+        (the decidable hypothesis of `vm_lambda_partial`) is evaluated on the program: the compiler
+        succeeds exactly on statically well-formed programs and the array has the target layout;
+        a failure is `propfail compile layout`.
   `eval <expr>`     answer `val <value>` | `err` | `panic` | `crash` | `hang`
         property predicate: the implementation's answer equals the **reference interpreter's**
         (`Interp.interp`): same value, or `err` where the interpreter reports an error; never a panic.
         `ok` when it also equals the VM model's answer, `diff <vm model>` when only the VM model is off.
         When the predicate fails and the VM model predicts exactly the implementation's answer and the
-        program has a lambda using a parameter of an enclosing lambda (`Expr.hasOpenLambda`), the
-        failure is the recorded finding: `propfail eval class=closure-registers`.
+        program is outside `Expr.regSafe` — the hypothesis of the theorem `vm_lambda_partial`, literally:
+        some lambda uses a parameter of an enclosing lambda, or reads an own parameter after a call that
+        may re-enter it — the failure is the recorded finding: `propfail eval class=closure-registers`.
+        Inside `regSafe` any difference from the interpreter is a violation.
 -/
 open B6.Driver B6.Model
 namespace B6.Driver.C21
@@ -33,7 +38,7 @@ def step (_ : Unit) (op impl : String) : Unit × Verdict :=
     | none => ((), .bad)
     | some e =>
       let m := renderDump (VM.compile e)
-      ((), if impl == m then .ok else .diff m)
+      ((), if impl != m then .diff m else if VM.layoutOK e then .ok else .propfail "compile layout")
   | "eval" :: _ =>
     match Expr.parse (sdrop op 5) with
     | none => ((), .bad)
@@ -42,7 +47,7 @@ def step (_ : Unit) (op impl : String) : Unit × Verdict :=
       let vm := Res.render (VM.run fuel e)
       if ref == "fuel" || vm == "fuel" then ((), .bad)
       else if impl == ref then ((), if impl == vm then .ok else .diff vm)
-      else if impl == vm && e.hasOpenLambda then ((), .propfail "eval class=closure-registers")
+      else if impl == vm && !e.regSafe then ((), .propfail "eval class=closure-registers")
       else ((), .propfail ("eval want=" ++ ref ++ " vm-model=" ++ vm))
   | _ => ((), .bad)
 
